@@ -41,6 +41,8 @@ func runC19(c *Ctx) {
 	checkLockContentParsable(c)
 	checkInterruptCleaners(c)
 	checkNoSendBeforeHandover(c, "R19.9")
+	checkNoValidationBetweenPreRunAndRun(c)
+	checkOpenEventsRelayed(c)
 	isLoad := func(n string) bool {
 		return n == "commands/execenv.LoadBackend" || n == "commands/execenv.LoadBackendEnsureUser"
 	}
@@ -894,4 +896,130 @@ func checkNoSendBeforeHandover(c *Ctx, rule string) {
 		}
 	}
 	c.Check(n >= 5, rule, "expected:channel-returning-functions", "module", fmt.Sprintf("%d functions returning an unbuffered channel they made", n), fmt.Sprintf("only %d such functions found (reference ≥ 10)", n))
+}
+
+// R19.10: nothing can fail between the pre-run that takes the lock and the run function that releases it.
+// cobra validates required flags and flag groups after PreRunE and before RunE: a command whose PreRunE
+// loads the backend and which declares a required flag exits with "required flag(s) not set" — and the lock.
+func checkNoValidationBetweenPreRunAndRun(c *Ctx) {
+	w := c.W
+	c.Doc("R19.10", "a function of package commands that builds a command whose PreRunE is execenv.LoadBackend* declares no cobra required flag or flag group (MarkFlagRequired, MarkPersistentFlagRequired, MarkFlagsRequiredTogether, MarkFlagsOneRequired, MarkFlagsMutuallyExclusive): those are checked after PreRunE and before RunE, where no deferred close exists")
+	n := 0
+	for _, f := range w.ModFns {
+		if isInstance(f) || !strings.HasPrefix(fnPkgPath(f), modPath+"/commands") || w.isTestHelper(f) {
+			continue
+		}
+		loads := false
+		for _, b := range f.Blocks {
+			for _, ins := range b.Instrs {
+				st, ok := ins.(*ssa.Store)
+				if !ok {
+					continue
+				}
+				fa, ok := st.Addr.(*ssa.FieldAddr)
+				if !ok || fieldName(fa) != "PreRunE" {
+					continue
+				}
+				if hasOriginCall(st.Val, "commands/execenv.LoadBackend", -1) != nil || hasOriginCall(st.Val, "commands/execenv.LoadBackendEnsureUser", -1) != nil {
+					loads = true
+				}
+			}
+		}
+		if !loads {
+			continue
+		}
+		n++
+		c.Sites++
+		c.seeFn(funcName(f))
+		bad := ""
+		for _, cl := range Calls(f) {
+			short := cl.Name
+			if i := strings.LastIndex(short, "."); i >= 0 {
+				short = short[i+1:]
+			}
+			switch short {
+			case "MarkFlagRequired", "MarkPersistentFlagRequired", "MarkFlagsRequiredTogether", "MarkFlagsOneRequired", "MarkFlagsMutuallyExclusive":
+				if strings.Contains(cl.Name, "cobra") {
+					bad = short + " at " + w.InstrPos(cl.Instr)
+				}
+			}
+		}
+		c.Check(bad == "", "R19.10", funcName(f)+":nothing-fails-between-prerun-and-run", w.FnPos(f), "no cobra validation between the lock and its release", "the command loads the backend in PreRunE and declares "+bad+": cobra checks it after PreRunE and before RunE, so a missing flag makes the process exit with the repository lock still in place")
+	}
+	c.Check(n >= 20, "R19.10", "expected:commands-loading-the-backend", "commands", fmt.Sprintf("%d command constructors with a backend-loading PreRunE", n), fmt.Sprintf("only %d command constructors with a backend-loading PreRunE found (reference ≥ 40)", n))
+}
+
+// R19.11: the refusal reaches whoever opened the cache. The build events of a cache being opened carry
+// the "already locked by pid N" error; MultiRepoCache (the web UI's opener) relays them. Every event
+// received is relayed before anything else is decided on it.
+func checkOpenEventsRelayed(c *Ctx) {
+	w := c.W
+	c.Doc("R19.11", "MultiRepoCache.RegisterRepository: every event received from the cache being opened is sent on to the caller, unconditionally within the loop and before the error test that ends it; the repository is registered only after the loop ended without an error event")
+	fn := w.Method("cache", "MultiRepoCache", "RegisterRepository")
+	if fn == nil {
+		c.Undecided("R19.11", "anchor:MultiRepoCache.RegisterRepository", "cache", "not found")
+		return
+	}
+	c.seeFn(funcName(fn))
+	okRelay, found := false, false
+	why := "no send of the received event found"
+	for _, an := range fn.AnonFuncs {
+		for _, b := range an.Blocks {
+			for _, ins := range b.Instrs {
+				sd, ok := ins.(*ssa.Send)
+				if !ok {
+					continue
+				}
+				recv := false
+				var isRecv func(v ssa.Value, d int) bool
+				isRecv = func(v ssa.Value, d int) bool {
+					if d > 3 {
+						return false
+					}
+					switch x := v.(type) {
+					case *ssa.Extract:
+						if u, isU := x.Tuple.(*ssa.UnOp); isU && u.Op == token.ARROW && x.Index == 0 {
+							return true
+						}
+					case *ssa.UnOp:
+						if x.Op == token.ARROW {
+							return true
+						}
+						if al, isAl := x.X.(*ssa.Alloc); isAl && x.Op == token.MUL {
+							for _, r := range *al.Referrers() {
+								if st, isSt := r.(*ssa.Store); isSt && st.Addr == al && isRecv(st.Val, d+1) {
+									return true
+								}
+							}
+						}
+					}
+					return false
+				}
+				recv = isRecv(sd.X, 0)
+				if !recv {
+					continue
+				}
+				found = true
+				c.Sites++
+				hdr := enclosingLoopHeader(b)
+				if hdr == nil {
+					why = "the event is relayed outside the receiving loop"
+					continue
+				}
+				cond := ""
+				for _, cc := range controlConds(b, hdr.Idom()) {
+					if isLoopHeader(cc.If.Block()) {
+						continue
+					}
+					cond = w.InstrPos(cc.If)
+				}
+				if cond != "" {
+					why = "the event is relayed only under the condition at " + cond + " (an error event is dropped: the caller never learns that the repository is locked by another process and goes on serving)"
+					continue
+				}
+				okRelay = true
+			}
+		}
+	}
+	c.Check(found && okRelay, "R19.11", "MultiRepoCache.RegisterRepository:every-event-relayed", w.FnPos(fn), "each received event is sent on unconditionally", why)
 }
